@@ -329,7 +329,7 @@ def extract(text):
                 raise TranslateError("%s.%s: signature changed: %s" % (cname, mname, args))
             sy = Sym(text, owner, args)
             sy.run(fn.body)
-            ent = {"m": m, "inherited": sy.inherited, "tables": sy.tables, "ret": sy.ret}
+            ent = {"m": m, "name": mname, "inherited": sy.inherited, "tables": sy.tables, "ret": sy.ret}
             for nm in sy.ret:
                 if nm in ("U", "V") and sy.inherited:
                     b = [Fraction(x) for x in SCIPY_B[sy.inherited]]
@@ -362,21 +362,23 @@ def extract(text):
                     and [getattr(a, "id", None) for a in last.value.args[:2]] == ["P", "Q"]):
                 _bad(last, "_geti2 branch must end with `return _solve_P_Q_2(P, Q, ...)`")
             sy = Sym(text, ("H",), ["h"])
-            sy.run(body + [ast.Return(value=ast.Tuple(elts=[ast.Name(id=x) for x in ("U", "V", "P", "Q")]))]
-                   if False else body + [_fake_return()])
+            sy.run(body + [_fake_return()])
             ent = {"m": K, "tables": sy.tables}
             for nm in ("P", "Q"):
                 v = sy.env.get(nm)
                 if not isinstance(v, Mono):
                     raise TranslateError("_geti2 pade<=%s: %s is not a polynomial" % (K, nm))
                 ent[nm] = _coeffs(v, None, False)
-                # the same polynomial with the nearest doubles of the literals
-                sy2 = Sym(text, ("H",), ["h"])
-                sy2.run(body + [_fake_return()])
-            res["geti2"][K] = ent
-            seen.append(K)
-    if seen != GETI2_ORDERS:
-        raise TranslateError("_geti2: table branches are %s, expected %s" % (seen, GETI2_ORDERS))
+            seen.append((K, ent))
+    # `pade` is 3, 5, 7, 9 or 13: the i-th block must be the one order GETI2_ORDERS[i] reaches
+    # (first K >= order) and order 13 must fall through all of them
+    ks = [k for k, _ in seen]
+    if len(ks) != len(GETI2_ORDERS) or ks != sorted(ks) or not all(isinstance(k, int) for k in ks) or ks[-1] >= 13 \
+            or [min([k for k in ks if k >= m] or [None]) for m in GETI2_ORDERS] != ks:
+        raise TranslateError("_geti2: table branches `pade <= %s` do not select orders %s" % (ks, GETI2_ORDERS))
+    for m, (K, ent) in zip(GETI2_ORDERS, seen):
+        ent["m"] = m
+        res["geti2"][m] = ent
     # double-valued versions of the geti2 tables (literals beyond 2**53)
     for K, ent in res["geti2"].items():
         ent["inexact"] = {nm: [i for i, (a, b) in enumerate(zip(*ent["tables"][nm])) if a != b] for nm in ("p", "q")}
@@ -462,9 +464,9 @@ def render(res):
         "namespace PyYetiVerif.Generated.PadeTables",
         "",
     ]
-    for key, title in (("int", "_ExpmIntPadeHelper.pade%s_i"), ("ss", "_ExpmPadeHelper_SS.pade%s")):
+    for key, title in (("int", "_ExpmIntPadeHelper.%s"), ("ss", "_ExpmPadeHelper_SS.%s")):
         for m, ent in sorted(res[key].items()):
-            o.append("/-- expmint.py:" + title % m + (" (U, V inherited from scipy pade%d: trusted constants)" % m
+            o.append("/-- expmint.py:" + title % ent["name"] + (" (U, V inherited from scipy pade%d: trusted constants)" % m
                                                          if ent["inherited"] else "") + " -/")
             o.append("def %s%d_inherited : Bool := %s" % (key, m, "true" if ent["inherited"] else "false"))
             for nm in ent["ret"]:
